@@ -42,7 +42,14 @@ FAVS = ('lobby', 'den')
 BURST_LEN = 9
 CLIENT_BURST_MAX = 18            # the reset strikes at the k-th frame the client writes after its Login frame, k = 1..18
 PENDING_KINDS = ('download-hang', 'download-slow', 'search', 'parent-hang', 'parent-slow', 'parent-slow-in-stop',
-                 'app-connect-slow', 'app-connect-in-stop', 'connect-back-hang', 'tracking-retry')
+                 'app-connect-slow', 'app-connect-in-stop', 'connect-back-hang', 'tracking-retry',
+                 'incoming-silent', 'incoming-partial')
+RELOGIN_DELAYS = (0.2, 1.0, 3.0)         # the server answers the Login of the automatic re-login this late
+
+
+def relogin_wait_variants(delay: float) -> list:
+    # stop() k loop steps / t seconds after that Login frame arrived at the server (always before the answer)
+    return [['y', 0], ['y', 2], ['y', 5], ['s', round(delay / 2, 3)]]
 SLOW_CLOSE = 1.0                 # '-in-stop' kinds: an application listener takes this long to handle the CLOSING of the
 #                                  server connection, i.e. the disconnect phase of stop() lasts that long
 APP_PEER = 'erin'                # peer of the application-level create_peer_connection() call
@@ -79,7 +86,9 @@ RULE = (
     "variants, connect-back hanging, tracking retry scheduled); or stop() before login, "
     "while login() blocks, after a failed login, after frame k of a burst sent at 50 ms spacing (k = 0..9 exhaustive), "
     "right after login() returned, idle, with each kind of pending work, while the reconnect wait runs, after a requested "
-    "disconnect / server EOF, after an automatic re-login, and inside an unrequested loss (RST): awaited by an application "
+    "disconnect / server EOF, after an automatic re-login, while the automatic re-login waits for the server's answer (the "
+    "server answers that Login 0.2 / 1 / 3 s late; stop() 0 / 2 / 5 loop steps or half that delay after the frame arrived), "
+    "with a peer that dialled each listening port and sent no / a partial init message, and inside an unrequested loss (RST): awaited by an application "
     "listener of the CLOSING notification of the server connection, or by an application task k = 0..5 loop steps after that "
     "notification, with and without an application listener that suspends for 8 loop steps and so stretches the window between "
     "CLOSING and CLOSED. In every case an ordinary async application listener of SessionDestroyedEvent checks the session and "
@@ -146,11 +155,13 @@ MIN_OBS = {
               'reconnects_judged': 90, 'execute_checks': 250, 'pending_work_kinds': len(PENDING_KINDS),
               'burst_cut_points': BURST_LEN + 1, 'burst_stop_points': BURST_LEN + 1, 'port_cfgs': len(PORT_CFGS),
               'client_burst_cut_points': 10, 'stops_inside_a_loss': 3, 'destroyed_listener_suspensions': 8,
+              'stops_while_relogin_awaits_its_answer': 3, 'silent_incoming_peers_at_stop': 2,
               'destroyed_deliveries_checked': 150},
     'thorough': {'logins_judged': 6000, 'required_frames_checked': 60000, 'losses_judged': 3500, 'stops_judged': 9000,
                  'reconnects_judged': 3500, 'execute_checks': 9000, 'pending_work_kinds': len(PENDING_KINDS),
                  'burst_cut_points': BURST_LEN + 1, 'burst_stop_points': BURST_LEN + 1, 'port_cfgs': len(PORT_CFGS),
                  'client_burst_cut_points': 10, 'stops_inside_a_loss': 300, 'destroyed_listener_suspensions': 300,
+                 'stops_while_relogin_awaits_its_answer': 300, 'silent_incoming_peers_at_stop': 100,
                  'destroyed_deliveries_checked': 6000},
 }
 SHARD_TIMEOUT = {'quick': 600, 'thorough': 5400}
@@ -175,6 +186,8 @@ WHAT_FAILS = {
     'loss:no-reconnect:': 'auto-reconnect on, unrequested loss, but no new connection / login within the bound',
     'loss:reconnect-although:': 'a new connection to the server although the loss was requested / a server EOF / auto-reconnect is off',
     'stop:open-endpoint': 'a connection of the client is open after stop() returned',
+    'stop:open-endpoint:accepted-peer-awaiting-init': 'an accepted incoming peer connection whose peer has not (completely) '
+                                                      'sent its init message is still open after stop() returned',
     'stop:listener-left': 'a listening port of the client is open after stop() returned',
     'stop:pending-task:': 'a task started by the library is pending after stop() returned',
     'stop:pending-task:potential-parent': 'DistributedNetwork is not one of client.services: its stop() is never called, '
@@ -230,7 +243,7 @@ LOSS_REASONS = {
 }
 STOP_POINTS = ('before-login', 'during-login', 'failed-login:reject', 'failed-login:garbage', 'failed-login:other',
                'burst', 'inflight', 'idle', 'pending', 'reconnect-wait', 'after-requested', 'after-eof', 'relogged',
-               'in-loss', 'in-loss')
+               'in-loss', 'in-loss', 'relogin-wait', 'relogin-wait')
 IN_LOSS_STEPS = 6                # stop() k = 0..5 loop steps after the CLOSING notification of an unrequested loss
 # how long the application's (async) listener of SessionDestroyedEvent suspends: loop steps or virtual seconds
 SUSPENSIONS = (['y', 3], ['s', 1.0], ['s', 7.0], ['s', 15.0])
@@ -277,6 +290,12 @@ def cases(tier: str, seed: int) -> list[dict]:
             add('stop', 'pending', work=work, auto=auto)
     add('stop', 'reconnect-wait', auto=True)
     add('stop', 'relogged', auto=True)
+    for delay in RELOGIN_DELAYS:
+        for after in relogin_wait_variants(delay):
+            add('stop', 'relogin-wait', 'rst', auto=True, delay=delay, after=after)
+    for work in ('incoming-silent', 'incoming-partial'):
+        for ports in ('both', 'clear-only', 'obf-only:all'):
+            add('stop', 'pending', work=work, ports=ports)
     for auto in (True, False):
         add('stop', 'in-loss', 'rst', auto=auto, via='listener', stretch=0)
         for stretch in (0, 8):
@@ -319,7 +338,10 @@ def cases(tier: str, seed: int) -> list[dict]:
             if point == 'in-loss':
                 extra = in_loss_variant(rng)
                 extra['auto'] = rng.random() < 0.8
-            add('stop', point, 'rst' if point == 'in-loss' else None,
+            if point == 'relogin-wait':
+                delay = rng.choice(RELOGIN_DELAYS)
+                extra = {'auto': True, 'delay': delay, 'after': rng.choice(relogin_wait_variants(delay))}
+            add('stop', point, 'rst' if point in ('in-loss', 'relogin-wait') else None,
                 k=(rng.randint(0, BURST_LEN) if point == 'burst' else
                    rng.randrange(IN_LOSS_STEPS) if point == 'in-loss' and extra['via'] == 'task' else None),
                 work=rng.choice(PENDING_KINDS) if point == 'pending' else None, **extra)
@@ -698,6 +720,23 @@ def run_case(params: dict) -> dict:
                 session.username = msg.username
                 session.close('rst')
                 return True
+            if kind == 'stop' and point == 'relogin-wait' and n_login_frames() == 2:
+                # the Login of the automatic re-login: answered cfg['delay'] seconds later
+                session.username = msg.username
+                st['relogin_frame_at'] = now()
+
+                def answer():
+                    st['relogin_answered_at'] = now()
+                    if session.open:
+                        session.logged_in = True
+                        server.by_user[msg.username] = session
+                        session.send(M.Login.Response(success=True, greeting='hello', ip='1.2.3.4', md5hash='abc',
+                                                      privileged=False), *burst)
+                w.loop.call_later(float(cfg['delay']), answer)
+                fut = st.get('relogin_fut')
+                if fut is not None and not fut.done():
+                    fut.set_result(None)
+                return True
             return False
         server.overrides[M.Login.Request] = rst_on_first_login
 
@@ -881,6 +920,17 @@ def run_case(params: dict) -> dict:
                 server.push(ME, M.ConnectToPeer.Response('dave', 'P', dave.ip, dave.port, 4242, False, 1, dave.obf_port))
             elif which == 'tracking-retry':
                 await h.call(client.users.track_user('ghost'))
+            elif which.startswith('incoming'):
+                # a peer that has connected to a listening port of the client and has not (completely) sent its
+                # initialization message
+                frank = await add_peer('frank', listen=False)
+                lports = sorted(x.port for x in w.net.listeners_of(ME))
+                if not lports:
+                    cover.append(('incoming_peer_without_listening_port', cfg['ports']))
+                init = None if which == 'incoming-silent' else M.PeerInit.Request('frank', 'P', 0).serialize()[:7]
+                for lp in lports:
+                    await frank.dial(lp, 'P', obfuscated=False, init=init, manual=True)
+                st['incoming'] = len(lports)
             else:
                 raise ValueError(which)
             await settle(1.0)
@@ -1018,6 +1068,10 @@ def run_case(params: dict) -> dict:
 
             async def stopper():
                 st['state_at_stop'] = client.network.server_connection.state.name
+                st['accepted_open_at_stop'] = len([tr for tr in w.net.open_transports(owner=ME) if tr.side == 'b'])
+                if point == 'relogin-wait':
+                    st['relogin_pending_at_stop'] = (st.get('relogin_frame_at') is not None and
+                                                     st.get('relogin_answered_at') is None and client.session is None)
                 await client.stop()
                 at_return.extend(describe(t) for t in library_tasks())
             if in_loss is None:
@@ -1073,9 +1127,19 @@ def run_case(params: dict) -> dict:
                     add('stops_inside_a_loss')
             if at_return:
                 add('tasks_pending_at_the_very_return', len(at_return))
+            if st.get('incoming') and st.get('accepted_open_at_stop'):
+                add('silent_incoming_peers_at_stop', st['accepted_open_at_stop'])
+            if point == 'relogin-wait':
+                wit['relogin'] = {'login_frame_at_server': st.get('relogin_frame_at'), 'server_answers_after_s': cfg.get('delay'),
+                                  'stop_issued': cfg.get('after'), 'login_unanswered_when_stop_was_called':
+                                  st.get('relogin_pending_at_stop')}
+                if st.get('relogin_pending_at_stop'):
+                    add('stops_while_relogin_awaits_its_answer')
             open_now = w.net.open_transports(owner=ME)
             if open_now:
-                violation('stop:open-endpoint', **wit, when='after stop() returned',
+                accepted_only = all(tr.side == 'b' for tr in open_now)
+                violation('stop:open-endpoint' + (':accepted-peer-awaiting-init' if accepted_only and st.get('incoming')
+                                                  else ''), **wit, when='after stop() returned',
                           endpoints=[{'conn': tr.conn.id, 'to_port': tr.conn.port, 'dialer': tr.conn.src,
                                       'acceptor': tr.conn.dst, 'closing': tr._closing} for tr in open_now][:6])
             lst = w.net.listeners_of(ME)
@@ -1092,6 +1156,10 @@ def run_case(params: dict) -> dict:
                 by_kind['peer-connect-attempt'] = [t for t in by_kind['peer-connect-attempt'] if t not in children]
                 if not by_kind['peer-connect-attempt']:
                     del by_kind['peer-connect-attempt']
+            if open_now and 'accept' in by_kind and len(by_kind['accept']) <= len(open_now):
+                # the accept handler that still waits for the init message of an open accepted connection: same finding
+                viol[-1 if not lst else -2][1]['accept_tasks_of_the_open_connections'] = [
+                    describe(t) for t in by_kind.pop('accept')][:6]
             if open_now and 'reader' in by_kind and len(by_kind['reader']) <= len(open_now):
                 # the reader task of a connection that is still open is part of that finding
                 viol[-1 if not lst else -2][1]['reader_tasks_of_the_open_connections'] = [
@@ -1105,10 +1173,16 @@ def run_case(params: dict) -> dict:
             window = 700.0 if st['spent_hour'] else HOUR
             # SimNet ground truth again some seconds later: every connect that was pending at stop() (latency <= 5 s)
             # has completed by then
+            # (8 s: every connect pending at stop(), latency <= 5 s, has completed; 12 s >= reconnect timeout + 5 s: a
+            # reconnect watchdog that survived has connected again)
             await asyncio.sleep(8.0)
             await settle(0)
             open_8s = [tr for tr in w.net.open_transports(owner=ME) if tr not in open_now]
-            await asyncio.sleep(window - 8.0)
+            await asyncio.sleep(4.0)
+            await settle(0)
+            open_8s += [tr for tr in w.net.open_transports(owner=ME) if tr not in open_now and tr not in open_8s]
+            st['attempts_12s'] = [e['t'] for e in w.net.connect_log if e['node'] == ME and e['t'] > t_stop]
+            await asyncio.sleep(window - 12.0)
             await settle(0)
             for kd, tasks in sorted(by_kind.items()):
                 fates = []
@@ -1149,6 +1223,7 @@ def run_case(params: dict) -> dict:
                 violation('stop:connect-after-stop:server', **wit,
                           attempts=[{k_: e[k_] for k_ in ('t', 'host', 'port', 'outcome')} for e in server_att][:6],
                           watchdog_task_survived_stop='watchdog' in by_kind,
+                          attempts_within_12_s_after_stop=st.get('attempts_12s'),
                           server_connection_state_at_stop=st.get('state_at_stop'),
                           consequences={'session_object_set_at_the_end': client.session is not None,
                                         'writes_to_the_server': wrote[:6], 'tasks_started_later': late_kinds,
@@ -1262,6 +1337,16 @@ def run_case(params: dict) -> dict:
                 await judge_login_of(got[0], got[1], 'first-login')
                 if point == 'pending':
                     await start_work(work)
+                elif point == 'relogin-wait':
+                    st['relogin_fut'] = w.loop.create_future()
+                    inject('rst')
+                    await asyncio.wait_for(st['relogin_fut'], RECONNECT_BOUND + 5.0)
+                    after = cfg.get('after') or ['y', 0]
+                    if after[0] == 'y':
+                        for _ in range(int(after[1])):
+                            await asyncio.sleep(0)
+                    else:
+                        await asyncio.sleep(float(after[1]))
                 elif point in ('reconnect-wait', 'relogged'):
                     t_inj = now()
                     inject('rst')
@@ -1399,7 +1484,8 @@ def run_case(params: dict) -> dict:
     if obs.get('logins_judged') or obs.get('losses_judged') or obs.get('stops_judged'):
         res['csigs'].append(f"{cfg_sig(cfg)}|{login_mode}|{kind}:{point}"
                             f"{'' if k is None else ':' + str(k)}{'' if not work else ':' + work}|{reason}"
-                            f"|{cfg.get('susp') or ''}|{cfg.get('via') or ''}{cfg.get('stretch') if cfg.get('via') else ''}")
+                            f"|{cfg.get('susp') or ''}|{cfg.get('via') or ''}{cfg.get('stretch') if cfg.get('via') else ''}"
+                            f"|{cfg.get('delay') or ''}{cfg.get('after') or ''}")
     res['sample'] = {'params': {x: params[x] for x in ('kind', 'point', 'reason', 'k', 'work', 'cfg')},
                      'start': info['start'], 'login_outcome': info['login_outcome'], 'trace': trace[:20]}
     return res
